@@ -4,7 +4,8 @@
    the kernel whenever a table changes). *)
 From Coq Require Import ZArith NArith List Bool.
 From Centro Require Import Base.Topo Base.Skel Base.TopoPar Base.TopoSweep Base.TopoGrid Gen.TablesC05.
-From Centro Require Import Model.ThinSkel Spec.TopoCheck Proofs.ThinSkelTopo Proofs.ThinSkelIdem Proofs.TopoCounts.
+From Centro Require Import Model.ThinSkel Spec.TopoCheck Proofs.ThinSkelTopo Proofs.ThinSkelIdem Proofs.TopoCounts
+  Proofs.TopoSwShrinkEnd Proofs.ShrinkPoint Proofs.LabelsIndep Proofs.TopoCheckComplete.
 Open Scope Z_scope.
 
 (* skeletonize_loop with the current removal table: every image size, every image, every
@@ -92,7 +93,49 @@ Theorem C05_shrink_idempotent : forall H W k g, wf H W g ->
 Proof. exact shrink_idempotent. Qed.
 Print Assumptions C05_shrink_idempotent.
 
-(* Not proved (checker only, evaluated on every binary_shrink(-1) output): "binary_shrink reduces
-   every hole-free object to a single pixel" - the missing lemma is that a connected, hole-free
-   image that is stable under the four shrink passes is a single pixel (a global argument, not a
-   finite sweep).  skeletonize_labels is checked per label through topo_check only. *)
+(* "binary_shrink reduces every hole-free object to a single pixel".
+   Local half, Full (512-pattern kernel sweep on the regenerated four tables, lifted to every image):
+   in an image that is stable under the four passes - what binary_shrink(-1) returns, by
+   C05_shrink_converged - no foreground pixel has an end pattern (one run of set neighbours around
+   it and not all of N,E,S,W set). *)
+Theorem C05_shrink_stable_no_end : forall H W g, wf H W g -> run_passes H W shrink_tables g = g ->
+  forall p, img_of g p = true -> end_pattern (pat (img_of g) p) = false.
+Proof. exact shrink_stable_no_end. Qed.
+Print Assumptions C05_shrink_stable_no_end.
+
+(* _partial: the full statement (every connected hole-free non-empty image is reduced to exactly
+   one pixel, every size) is proved FROM the one missing lemma [EndPixelLemma]: every connected
+   hole-free finite image with at least two pixels has a pixel with an end pattern (global, Jordan-
+   curve style; validated outside Coq: binary_shrink(-1) leaves one pixel of every hole-free object
+   of every image up to 4x4, 3x5, 5x3 and of all random images of every run). *)
+Theorem C05_shrink_to_point_partial : EndPixelLemma ->
+  forall H W g, wf H W g -> connected (img_of g) -> hole_free (img_of g) ->
+  (exists a, img_of g a = true) ->
+  exists q, forall p, img_of (shrink_model H W (-1) g) p = true <-> p = q.
+Proof. exact shrink_to_point_partial. Qed.
+Print Assumptions C05_shrink_to_point_partial.
+
+(* skeletonize_labels over the colouring model (any colouring in which pixels of one label share a
+   colour and 8-adjacent different labels differ in colour; any guard; any per-colour order): the
+   part of the result carrying label l is exactly what the same loop with the same order leaves of
+   (labels == l) alone - labels do not influence each other - ... *)
+Theorem C05_labels_independent : forall lab col keep guard ord l, l <> 0 -> proper lab col ->
+  forall i, (forall p, lab p = l -> col p = i) ->
+  forall q, (labels_result lab col keep guard ord q =? l) = skel keep guard (ord i) (label_img lab l) q.
+Proof. exact labels_independent. Qed.
+Print Assumptions C05_labels_independent.
+
+(* ... and therefore every label keeps its own topology (current skeletonize table) *)
+Theorem C05_labels_topo : forall lab col guard ord l, l <> 0 -> proper lab col ->
+  forall i, (forall p, lab p = l -> col p = i) ->
+  TopoEq (label_img lab l) (fun q => labels_result lab col (keepN skel_tab) guard ord q =? l).
+Proof. exact labels_topo. Qed.
+Print Assumptions C05_labels_topo.
+
+(* _partial: completeness of the checker (it rejects only when the topology changed) is proved
+   FROM the one missing lemma [RonseLemma] (Ronse 1986: a proper TopoEq-subset leaves a simple pixel
+   to delete); validated outside Coq on all 610 173 pairs X' <= X of 3x3, 2x5, 3x4 images. *)
+Theorem C05_topo_check_complete_partial : RonseLemma ->
+  forall H W g g', wf H W g -> wf H W g' -> TopoEq (img_of g) (img_of g') -> topo_check H W g g' = true.
+Proof. exact topo_check_complete_partial. Qed.
+Print Assumptions C05_topo_check_complete_partial.
